@@ -903,9 +903,12 @@ pub uninterp spec fn sig_valid(key: int, s: Signature, m: Seq<u8>) -> bool;
 pub trait Signer {
     // the verification key that matches this signing key
     spec fn vkey(&self) -> int;
-    // [A-sign-correct] a produced signature verifies under the matching key; [A-sign-ok] signing does not fail
+    // whether this signer accepts these options (an SSH signing key refuses `None`; the other schemes accept anything)
+    spec fn sign_ok(&self, options: Option<SigningOptions>) -> bool;
+    // [A-sign-correct] a produced signature verifies under the matching key; [A-sign-ok] signing succeeds when the signer
+    // accepts the options (it does NOT always succeed: `sign_ok`)
     fn sign_with_options(&self, message: &dyn SignMsg, options: Option<SigningOptions>) -> (r: Result<Signature>)
-        ensures r matches Ok(s) && sig_valid(self.vkey(), s, message.msg());
+        ensures self.sign_ok(options) ==> r is Ok, r matches Ok(s) ==> sig_valid(self.vkey(), s, message.msg());
 }
 pub trait Verifier {
     spec fn vkey(&self) -> int;
